@@ -40,11 +40,29 @@ type VerifStore struct {
 	Objs    map[oid.ID]*object.Object
 	Virtual map[oid.ID]*object.SplitInfo
 	ECParts map[oid.ID]map[[2]int]*object.Object
-	Reqs    []VerifReq
+	// Flaky EC parts (parent -> (rule, part) -> n): the part is stored, its header and full
+	// stream are readable, but every payload *range* stream of it breaks after n bytes
+	// (a node that dies in the middle of a range stream).
+	Flaky map[oid.ID]map[[2]int]int
+	Reqs  []VerifReq
+}
+
+// verifBrokenReader yields the bytes of r and then a non-EOF error.
+type verifBrokenReader struct{ r io.Reader }
+
+var errVerifBrokenStream = errors.New("verif: stream broken")
+
+func (b verifBrokenReader) Read(p []byte) (int, error) {
+	n, err := b.r.Read(p)
+	if err == io.EOF {
+		err = errVerifBrokenStream
+	}
+	return n, err
 }
 
 func VerifNewStore() *VerifStore {
-	return &VerifStore{Objs: map[oid.ID]*object.Object{}, Virtual: map[oid.ID]*object.SplitInfo{}, ECParts: map[oid.ID]map[[2]int]*object.Object{}}
+	return &VerifStore{Objs: map[oid.ID]*object.Object{}, Virtual: map[oid.ID]*object.SplitInfo{}, ECParts: map[oid.ID]map[[2]int]*object.Object{},
+		Flaky: map[oid.ID]map[[2]int]int{}}
 }
 
 func (st *VerifStore) record(r VerifReq) {
@@ -126,7 +144,11 @@ func (l verifLocalObjects) GetECPartRange(_ context.Context, _ cid.ID, parent oi
 	if readHeader {
 		hdr = p.CutPayload()
 	}
-	return hdr, uint64(len(p.Payload())), io.NopCloser(bytes.NewReader(pld)), nil
+	var rd io.Reader = bytes.NewReader(pld)
+	if n, ok := l.st.Flaky[parent][[2]int{pi.RuleIndex, pi.Index}]; ok && n < len(pld) {
+		rd = verifBrokenReader{bytes.NewReader(pld[:n])}
+	}
+	return hdr, uint64(len(p.Payload())), io.NopCloser(rd), nil
 }
 
 func (l verifLocalObjects) ReadECPart(context.Context, cid.ID, oid.ID, iec.PartInfo, common.PayloadRange, []byte, func([]byte) error) (int, io.ReadCloser, error) {
